@@ -24,6 +24,8 @@ def run(check):
     check.run_rule('C05.R2', lambda c: rule_parameter_fields(c, 'C05.R2'))
     check.run_rule('C05.R3', lambda c: rule_scopes(c, 'C05.R3'))
     check.run_rule('C05.R4', lambda c: rule_evaluation_order(c, 'C05.R4'))
+    from ..rules_visitor import rule_attribute_handler
+    check.run_rule('C05.R11', lambda c: rule_attribute_handler(c, 'C05.R11'))
     from ..rules_visitor import rule_enclosing_lookup
     check.run_rule('C05.R9d', lambda c: rule_enclosing_lookup(c, 'C05.R9'))
     from ..rules_visitor import rule_recheck_table
